@@ -10,6 +10,7 @@ started AND produced output in the pilot run with configuration ALL)."""
 import sys, os, shutil
 sys.path.insert(0, os.path.join(os.path.dirname(os.path.abspath(__file__)), '..', 'vlib'))
 from harness import main, Part, pmap, SAN_ENV
+import twoproc
 from p11client import Exec, Died, Hang, mkconf
 import keys_fixed2 as K, mechtable as MT
 
@@ -320,6 +321,8 @@ def run(ctx):
             jobs.append(dict(base, what='keyless', name=f'{b}-{conf}-keyless'))
         jobs.append(dict(paths=p, hdr=p['hdr'], scratch=ctx.scratch, conf=f'{b}:ALL', ckind='ALL', cnames=[], art=art, what='auth', name=f'{b}-auth'))
         for part in pmap(worker, jobs, ctx.nproc): ctx.merge(part)
+    # another PROCESS clears a usage flag of a token key this process has already used (both object-store back-ends): the very next operation must be refused here too
+    for be in ('file', 'db'): ctx.extra.setdefault('two_process_cells', {})[be] = twoproc.stale_view(ctx, be, 'usage')
     if ctx.inconclusive: exhaustive = False
     ctx.extra['exhaustive'] = exhaustive
     ctx.assumptions += ['"fits" is family level only (vlib/mechtable.py); a refusal is never a violation (the statement is "starts only if"); refused positive controls are observations',
